@@ -1,7 +1,7 @@
 (* C10 -- Asking for help or version always wins and never runs the program.
    Property theorems only; proofs live in Lemmas/. *)
 From BpafModel Require Import Wf.
-From BpafLemmas Require Import Tac Reach Ledger NoLoss C05Lemmas OkReach OkLaws HelpLaws TotalLaws HelpWins.
+From BpafLemmas Require Import Tac Reach Ledger NoLoss C05Lemmas OkReach OkLaws HelpLaws TotalLaws AdjLaws HelpWins.
 
 (* Never a value: for EVERY parser, if the line holds a live item that none of the parser's own
    consumers accepts -- such as `--help`/`-h`/`--version`, or the configured replacements, whenever
@@ -47,7 +47,8 @@ Theorem C10_help_found :
 Proof. exact help_found. Qed.
 Print Assumptions C10_help_found.
 
-(* FULL STATEMENT for definitions without subcommands and adjacent groups (`memb`: every other combinator,
+(* FULL STATEMENT for definitions without subcommands (`memb`: every other combinator, adjacent groups -- also nested
+   ones -- included since the fix: commit that makes a failed group hand the caller's scope back;
    arbitrarily nested): if the help flag stands on the line as an item of its own -- and no item of the parser
    uses its names -- the outcome is the help of this level, WHATEVER else is missing, duplicated or malformed:
    only subcommands produce a ready-made failure, the parser neither panics nor loops (C04_total), nobody can
@@ -103,8 +104,30 @@ Example C10_example_help_wins :
     = OutStdout (HHelp pth default_info (meta_of p) d).
 Proof. cbv zeta. split; [reflexivity|]. split; [vm_compute; reflexivity|]. eexists. eexists. vm_compute. reflexivity. Qed.
 
+(* An incomplete adjacent group does not hide the request (after the fix: commit in /repo -- found while trying to extend
+   the theorems above to groups: the state a failed group handed back kept the window of the failed attempt, which
+   starts at the group's first item, so a help flag to its LEFT was not found and the run ended with `expected Y, pass
+   --help for usage information`): a failed group hands back the caller's scope ... *)
+Theorem C10_failed_group_gives_scope_back :
+  forall ev fi s e s', eval_adjacent ev fi s = (RErr e, s') -> sc_start s' = sc_start s /\ sc_end s' = sc_end s.
+Proof. exact adjacent_err_scope. Qed.
+Print Assumptions C10_failed_group_gives_scope_back.
+
+(* ... so that `--help --rect 1` (the group `--rect X Y` is incomplete) shows the help *)
+Example C10_example_help_left_of_failed_group :
+  let g := PAdj (PCons (PFlag (mkNamed [] [[114;101;99;116]%N] [] None) VUnit None)
+                (PCons (PPos [88%N] TyU32 Unrestricted None) (PCons (PPos [89%N] TyU32 Unrestricted None) PNil))) in
+  let p := PCon (PCons g (PCons (PFlag (mkNamed [118%N] [] [] None) (VBool true) (Some (VBool false))) PNil)) in
+  exists pth d,
+    run_inner (mkFeat true true false) (fun _ => None) (Options p default_info) None
+              [[45;45;104;101;108;112]%N; [45;45;114;101;99;116]%N; [49]%N]
+    = OutStdout (HHelp pth default_info (meta_of p) d).
+Proof. cbv zeta. eexists. eexists. vm_compute. reflexivity. Qed.
+
 (* The unrestricted statement ("regardless of what else is missing") is FALSE of the faithful
-   model and of the code; two witnesses, replayed on the implementation = known findings. *)
+   model and of the code with subcommands: a sibling field of an enclosing level that fails first hides the request
+   made inside a subcommand; the witness, replayed on the implementation = known finding C10-parent-field-fails-first.
+   (The second class, an incomplete adjacent group, was repaired: C10_failed_group_gives_scope_back.) *)
 Theorem C10_refuted_seq :
   exists o argv m,
     run_inner (mkFeat true true false) (fun _ => None) o None argv = OutStderr m.
